@@ -2,47 +2,64 @@
 (***************************************************************************)
 (* C02 -- the tagged value codec as a state machine: values are written,   *)
 (* one after the other, to one byte stream (WriteValue), the stream is     *)
-(* opened, every value is read back (ReadValue) and the decoded value is   *)
+(* opened, every value is read back (ReadValue) and each decoded value is  *)
 (* written again to a fresh output.  The format itself is Value.tla.       *)
+(*                                                                         *)
+(* One action per public call:  Write(v) = value.WriteValue(out, v),       *)
+(* Open = io.NewDataInputX(out.ToByteArray()), Read = value.ReadValue(in), *)
+(* ReEncode = value.WriteValue(fresh, the value just read).  RT(v) is the  *)
+(* composition Write(v);Open;Read;ReEncode on a fresh stream (one step, so *)
+(* that tens of thousands of one-value histories validate quickly).        *)
 (***************************************************************************)
 EXTENDS Value
 
 VARIABLES vals,    \* the values written, in order
+          encs,    \* their reference encodings, one byte tuple each (Concat(encs) = wire)
           wire,    \* the bytes produced so far
           rpos,    \* reader cursor (1-based), 0 while still writing
           backs,   \* the values read back so far
           again    \* re-encodings of the values read back, one byte tuple each
 
-vars == <<vals, wire, rpos, backs, again>>
+vars == <<vals, encs, wire, rpos, backs, again>>
 
-Init == vals = <<>> /\ wire = <<>> /\ rpos = 0 /\ backs = <<>> /\ again = <<>>
+Init == vals = <<>> /\ encs = <<>> /\ wire = <<>> /\ rpos = 0 /\ backs = <<>> /\ again = <<>>
 
 \* WriteValue(out, v)
 Write(v) ==
   /\ rpos = 0
   /\ IsValue(v)
-  /\ wire' = wire \o EncValue(v)
+  /\ \E e \in {EncValue(v)} :                \* bound once, by value
+       /\ wire' = wire \o e
+       /\ encs' = Append(encs, e)
   /\ vals' = Append(vals, v)
   /\ UNCHANGED <<rpos, backs, again>>
 
-Open == rpos = 0 /\ rpos' = 1 /\ UNCHANGED <<vals, wire, backs, again>>
+Open == rpos = 0 /\ rpos' = 1 /\ UNCHANGED <<vals, encs, wire, backs, again>>
 
 \* ReadValue(in): the next tagged value of the stream
 Read ==
   /\ rpos > 0
   /\ Len(backs) < Len(vals)
   /\ Len(again) = Len(backs)
-  /\ \E d \in {DecValue(wire, rpos)} :       \* bound once, by value
+  /\ \E d \in {DecValue(wire, rpos)} :
        /\ d.ok
        /\ backs' = Append(backs, d.v)
        /\ rpos' = d.next
-  /\ UNCHANGED <<vals, wire, again>>
+  /\ UNCHANGED <<vals, encs, wire, again>>
 
 \* WriteValue(fresh output, the value just read)
 ReEncode ==
   /\ Len(again) < Len(backs)
   /\ again' = Append(again, EncValue(backs[Len(backs)]))
-  /\ UNCHANGED <<vals, wire, rpos, backs>>
+  /\ UNCHANGED <<vals, encs, wire, rpos, backs>>
+
+\* Write(v); Open; Read; ReEncode on a fresh stream
+RT(v) ==
+  /\ IsValue(v)
+  /\ \E e \in {EncValue(v)} : \E d \in {DecValue(e, 1)} :
+       /\ d.ok
+       /\ vals' = <<v>> /\ encs' = <<e>> /\ wire' = e
+       /\ rpos' = d.next /\ backs' = <<d.v>> /\ again' = <<EncValue(d.v)>>
 
 \* ---- properties -----------------------------------------------------------
 \* same type, equal content, entries and items in their original order
@@ -51,24 +68,28 @@ ReadBack == \A i \in 1..Len(backs) : SameValue(backs[i], vals[i])
 \* the cursor after reading k values stands exactly behind their encodings;
 \* in particular the whole stream is consumed when everything has been read
 RECURSIVE SumLen(_, _)
-SumLen(xs, k) == IF k = 0 THEN 0 ELSE SumLen(xs, k - 1) + Len(EncValue(xs[k]))
-ExactConsumption == rpos > 0 => rpos = 1 + SumLen(vals, Len(backs))
+SumLen(xs, k) == IF k = 0 THEN 0 ELSE SumLen(xs, k - 1) + Len(xs[k])
+ExactConsumption == rpos > 0 => rpos = 1 + SumLen(encs, Len(backs))
 AllConsumed == (rpos > 0 /\ Len(backs) = Len(vals)) => rpos = Len(wire) + 1
+WireOK == Len(wire) = SumLen(encs, Len(encs)) /\ Len(encs) = Len(vals)
 
 \* re-encoding the decoded value reproduces the bytes of the original
-ReEncodeIdentical == \A i \in 1..Len(again) : again[i] = EncValue(vals[i])
-
-\* a well-formed stream never gets stuck
-NoStuck == (rpos > 0 /\ Len(backs) < Len(vals)) => DecValue(wire, rpos).ok
+ReEncodeIdentical == \A i \in 1..Len(again) : again[i] = encs[i]
 
 \* every encoding starts with the value's type code
-TagFirst == \A i \in 1..Len(vals) : EncValue(vals[i])[1] = vals[i].t
+TagFirst == \A i \in 1..Len(vals) : encs[i][1] = vals[i].t
 
-\* a value decodes the same whatever follows it, and no proper prefix of it decodes
-SelfDelimiting == \A i \in 1..Len(vals) : SelfDelimits(vals[i])
-Truncated == \A i \in 1..Len(vals) : PrefixesFail(vals[i])
-
-\* a byte that is no type code is refused
+\* ---- properties of the format itself, evaluated on the value written last ----
+\* (checked by MC_Value on the design; too costly to repeat on every trace step)
+Last == vals[Len(vals)]
+Writing == rpos = 0 /\ vals # <<>>
+\* a well-formed stream never gets stuck
+NoStuck == (rpos > 0 /\ Len(backs) < Len(vals)) => DecValue(wire, rpos).ok
+\* a value decodes the same whatever follows it
+SelfDelimiting == Writing => SelfDelimits(Last)
+\* no proper prefix of a (short) encoding decodes
+Truncated == (Writing /\ Len(encs[Len(encs)]) <= 40) => PrefixesFail(Last)
+\* a byte that is no type code is refused (constant level: an ASSUME of MC_Value)
 UnknownTag == \A c \in {1, 9, 11, 23, 47, 52, 62, 75, 79, 82, 255} :
                  c \notin TypeCodes /\ ~DecValue(<<c, 0, 0, 0, 0, 0, 0, 0, 0>>, 1).ok
 =============================================================================
